@@ -1146,8 +1146,6 @@ Proof.
   - destruct (q_state _); try lia; [|autorewrite with fr_nreqs in H2; lia]. destruct (t_must _); autorewrite with fr_nreqs in H2; lia.
 Qed.
 
-Lemma QN_fold_one s h : QN s (run_handle s h). Proof. apply QN_run_handle. Qed.
-
 Lemma sd_run_handle M rest s h :
   Inv (h :: rest ++ ready s) s -> Tinv M s -> diverged s = false ->
   ~ normal (run_handle s h) ->
@@ -1274,8 +1272,7 @@ Qed.
 Lemma Tinv_init M sv : Tinv M (init sv).
 Proof.
   constructor; cbn; try (intros; lia); try discriminate; auto.
-  - split; [constructor|intros x []].
-  - Show.
+  split; [constructor|intros x []].
 Qed.
 
 Lemma alive_diverged sched : forall s, diverged s = true -> Forall (fun b => b = true) (map alive_step (trace_from s sched)).
